@@ -455,6 +455,18 @@ pub fn check(e: &Engine) {
 		&strategy,
 		&run,
 	);
+	e.explore(
+		"real-process",
+		LegOpts::realtime(
+			e.tier.pick(96, 2_000),
+			16,
+			"one graceful stop / restart / try-restart sent to a running real process (vhelper: plain, grouped or session; exits at once, after a delay, or never on the signal; may exit by itself during the wait) supervised by the production job task through process-wrap, on real time: evidence of a violation is the process seen dead before the grace deadline (or missing its own end record), seen alive 1.5 s after it, a wrong / missing first signal, a follower that ran or a ticket that resolved while the process was still seen alive, a replacement count other than exactly one, or a replacement that found the job's lock held. Non-trivial: grace > 0",
+		),
+		&super::realjob::grace_strategy,
+		&super::realjob::run_grace,
+	);
+	e.require_label("real-process", "outlives-grace", 0.15);
+	e.require_label("real-process", "ends-within-grace", 0.15);
 	e.require_label("graceful", "reaction-within-1ms-of-deadline", 0.1);
 	e.require_label("graceful", "followers", 0.5);
 }
